@@ -488,7 +488,11 @@ class FieldHeader:
 
     @property
     def disambiguated(self) -> str:
-        return self.raw + "_" if self.raw in utils.RESERVED_NAMES else self.raw
+        # Every segment of a dotted path is an attribute access on its own.
+        return ".".join(
+            segment + "_" if segment in utils.RESERVED_NAMES else segment
+            for segment in self.raw.split(".")
+        )
 
 
 @dataclasses.dataclass(frozen=True)
@@ -1199,6 +1203,11 @@ class RetryInfo:
 class RoutingParameter:
     field: str
     path_template: str
+
+    @property
+    def disambiguated_field(self) -> str:
+        """The attribute path of ``field`` on the generated request class."""
+        return FieldHeader(self.field).disambiguated
 
     def _split_into_segments(self, path_template):
         segments = path_template.split("/")
